@@ -1,5 +1,5 @@
 """C05 — Derived forms behave as R7RS specifies (static analysis of src/parser/grammar.sld)."""
-from . import mir
+from . import mir, absint
 from .mir import callee, callee_matches, Prov
 from .ctx import where_of
 
@@ -103,4 +103,17 @@ def run(ctx):
                                     "with the same elements as the key, but another object, selects nothing)")
     from . import listtables as _lt05
     _lt05.rule_list_library(ctx, "C05-case-membership", only={"memv"})
+    # and / or / cond / case / when / unless all end in the core `if`: "each operand once, in order, the last one's value" holds only
+    # if both evaluators of `if` evaluate the test, then exactly the selected arm — also when that arm is the same text as the test,
+    # which is what (and e e) and (or e e) expand into
+    ctx.rule("C05-core-if", "the conditional the derived forms expand into: the test once, judged by as_boolean, then the selected arm and "
+                            "nothing else, in the same environment — also when the arm is another occurrence of the test's text "
+                            "((and e e) = (if e e #f)); both evaluators")
+    fb = ctx.fb()
+    w05 = evaltables.tables(fb)["w"]
+    for f05 in (w05.ee, w05.ete):
+        try:
+            evaltables.rule_conditional(ctx, "C05-core-if", f05)
+        except (mir.AnchorMissing, absint.Stuck, absint.Loop) as e:
+            ctx.undecided("C05-core-if", f05.name.rsplit("::", 1)[-1], "the conditional table could not be built (%s)" % e)
     return EXPLANATION, NOT_DECIDED
